@@ -28,11 +28,15 @@ UNITS = {
         [{"k": "step", "fn": {"sleep": 1, "then": {"ret": "winner"}}}],
         [{"k": "step", "fn": {"ret": "inner-done"}}, {"k": "step", "fn": {"sleep": 5, "then": {"ret": "late"}}}]]}],
     "M": [{"k": "map", "items": [1, 2], "cfg": {"cc": "all_completed"}, "body": [{"k": "step", "fn": {"item": True}}]}],
+    # results above the 256 KB checkpoint limit: recorded as a summary, the body is traversed again on replay
+    "Mbig": [{"k": "map", "items": [1, 2, 3], "cfg": {"cc": "all_completed"}, "body": [{"k": "step", "fn": {"bytes": 100_000}}]}],
+    "Hbig": [{"k": "child", "body": [{"k": "step", "fn": {"ret": 5}, "log": "in-step"}], "big": 270_000}],
     "N": [{"k": "wfc", "init": 0, "decide": [{"cont": 1}, "stop"], "log": "in-check"}],
 }
 FEATURE = {"S": "step", "W": "wait", "R": "retried-step", "F": "caught-failed-step", "H": "child-context", "Hw": "child-context",
            "K": "wait_for_callback", "C": "callback", "P": "parallel", "M": "map", "N": "wait_for_condition",
-           "Pe": "parallel-early-completion", "Cx": "pending-callback-then-completed-ops"}
+           "Pe": "parallel-early-completion", "Cx": "pending-callback-then-completed-ops",
+           "Mbig": "oversized-map", "Hbig": "oversized-child"}
 UNIT_OPS = {"Cx": 3}   # durable operations a unit starts on the top-level context (default 1)
 
 
@@ -52,7 +56,7 @@ def programs(tier):
     out = [program((a,)) for a in names]
     out += [program((a, b)) for a, b in itertools.product(names, repeat=2)]
     third = ["S", "W", "F", "H", "C"] if quick else names
-    first2 = ["S", "W", "R", "F", "H", "K", "P", "N", "Pe", "Cx"] if quick else names
+    first2 = ["S", "W", "R", "F", "H", "K", "P", "N", "Pe", "Cx", "Mbig"] if quick else names
     out += [program((a, b, c)) for a in first2 for b in first2 for c in third]
     if not quick:
         four = ["S", "W", "F", "H"]
